@@ -74,9 +74,9 @@ Lemma table_items_of_chunks mx : forall items last cs,
   chunks_of_items mx last items = Ok cs -> last < two64 -> Forall wf_titem items ->
   table_items last cs = items.
 Proof.
-  induction items as [|[off id] r IH]; intros last cs E Hlast Hwf; cbn [chunks_of_items] in E.
+  induction items as [|[off id] r IH]; intros last cs E Hlast Hwf; cbn [chunks_of_items_v] in E.
   - inversion E. reflexivity.
-  - destruct (mx <? sub64 off last); [discriminate|].
+  - destruct (off <? last); [discriminate|]. destruct (mx <? sub64 off last); [discriminate|].
     destruct (chunks_of_items mx off r) as [cs'|e|p] eqn:Er; try discriminate.
     inversion E; subst. clear E. inversion Hwf as [|? ? Hi Hwf']; subst. destruct Hi as [Hoff _].
     cbn [table_items c_size c_id fst snd]. rewrite add64_sub64 by assumption.
@@ -101,7 +101,7 @@ Lemma index_from_reader_inv d b i rest a :
     ix_flags i < two64 /\ ix_min i < two64 /\ ix_avg i < two64 /\ ix_max i < two64 /\
     chunks_of_items (ix_max i) 0 items = Ok (ix_chunks i).
 Proof.
-  unfold index_from_reader. intros E Hwf. unfold bind in E.
+  unfold index_from_reader_v. intros E Hwf. unfold bind in E.
   destruct (next Fixed b) as [[[oe|er|pp] s1] a1] eqn:E1; try discriminate.
   destruct oe as [e1|]; [|discriminate]. destruct e1; try discriminate.
   destruct (negb (digest_ok d feature_flags)); [discriminate|].
@@ -212,4 +212,36 @@ Proof.
   rewrite <- !app_assoc.
   replace (N.of_nat (8 * 2) + 40 * N.of_nat (length items) + 40) with (N.of_nat (48 + 16 + 40 * length items + 40 - 48)) by lia.
   reflexivity.
+Qed.
+
+(* ---------- what IndexFromReader accepts lies in WriteTo's domain ---------- *)
+
+Lemma chunks_of_items_sound mx : forall items last cs,
+  chunks_of_items mx last items = Ok cs -> last < two64 -> Forall wf_titem items ->
+  starts_from last cs /\ Forall (fun c => c_size c <= mx) cs /\ last + total_size cs < two64 /\
+  Forall (fun c => length (c_id c) = 32%nat) cs /\
+  (last = 0 -> match cs with [] => True | c :: _ => c_size c <> 0 end).
+Proof.
+  induction items as [|[off id] r IH]; intros last cs E Hlast Hwf; cbn [chunks_of_items_v] in E.
+  - inversion E; subst. cbn. repeat split; try constructor. lia.
+  - destruct (off <? last) eqn:Elt; [discriminate|]. apply N.ltb_ge in Elt.
+    destruct (mx <? sub64 off last) eqn:Ebig; [discriminate|]. apply N.ltb_ge in Ebig.
+    destruct (chunks_of_items mx off r) as [cs'|e|p] eqn:Er; try discriminate.
+    inversion E; subst. clear E. inversion Hwf as [|? ? Hi Hwf']; subst. destruct Hi as [Hoff [Hnz Hid]].
+    destruct (IH _ _ Er Hoff Hwf') as [Hst [Hsz [Htot [Hids _]]]].
+    rewrite sub64_exact in * by lia.
+    cbn [starts_from total_size fold_right c_start c_size c_id fst snd]. fold (total_size cs').
+    replace (last + (off - last)) with off by lia.
+    repeat split; try assumption; try (constructor; assumption); lia.
+Qed.
+
+Theorem index_accepted_wf d b i rest :
+  wf_bytes b -> decode_index_rest d b = Ok (i, rest) -> wf_index i.
+Proof.
+  intros Hwf E. unfold decode_index_rest, run_result in E.
+  destruct (index_from_reader d b) as [[[i'|er|pp] rest'] a] eqn:Ei; try discriminate.
+  inversion E; subst. clear E.
+  destruct (index_from_reader_inv _ _ _ _ _ Ei Hwf) as [sz [x [y [items [_ [_ [_ [_ [Hwfi [Hff [Hmn [Hav [Hmx Hch]]]]]]]]]]]]].
+  destruct (chunks_of_items_sound _ _ _ _ Hch ltac:(lia) Hwfi) as [Hst [Hsz [Htot [Hids Hfirst]]]].
+  constructor; try assumption. now apply Hfirst.
 Qed.
